@@ -115,6 +115,20 @@ func genC04(r *kit.RNG) *C04Scenario {
 		sc.Ops = append(sc.Ops, C04Op{GapMs: 1000, Name: 19, DO: do}, C04Op{GapMs: 61000, Name: 20, DO: do}, C04Op{GapMs: 2000, Name: 21, DO: do},
 			C04Op{GapMs: kit.Pick(r, []int{4000, 11000}), Name: 21, DO: r.Chance(0.5)}, C04Op{GapMs: 31000, Name: 21, DO: do})
 	}
+	if r.Chance(0.15) {
+		// composed-lifetime recipe: a short-lived target (host1.plain.test.) is cached through a
+		// delegation whose lease ends at quite another time than the record; the cross-zone alias
+		// far.sig.test. -> host1.plain.test. is then resolved fresh (its zone sends the CNAME
+		// alone) and completed from the cache; asked again once the target has run out, the
+		// composition must have run out with it, whatever the alias's own TTL and the lease say
+		sc.TTL[1] = kit.Pick(r, []uint32{7, 12, 30})
+		sc.AliasTTL = kit.Pick(r, []uint32{3600, 90000})
+		sc.NSTTL = kit.Pick(r, []uint32{600, 3600, 86400})
+		sc.SlowMs = 0
+		do := r.Chance(0.5)
+		sc.Ops = append(sc.Ops, C04Op{GapMs: 1000, Name: 7, DO: do}, C04Op{GapMs: kit.Pick(r, []int{900, 2000, 4000}), Name: 13, DO: do},
+			C04Op{GapMs: int(sc.TTL[1])*1000 + kit.Pick(r, []int{200, 2000}), Name: 13, DO: do}, C04Op{GapMs: 4000, Name: 13, DO: r.Chance(0.5)})
+	}
 	pool := []int{r.Intn(c04NameCount), r.Intn(c04NameCount), r.Intn(c04NameCount)}
 	gaps := []int{200, 900, 1000, 2000, 4000, 4900, 5100, 6000, 11000, 29000, 31000, 61000, 299000, 301000, 3600000, 86390000, 86410000, 108000000}
 	n := r.Range(10, 60)
@@ -276,6 +290,7 @@ func c04Run(sc *C04Scenario, tr *kit.Trace, res *kit.Result) {
 		q.CheckingDisabled = op.CD
 		before := r.Net.SentCount()
 		askStart := r.Now()
+		netAskStart := r.Net.Now()
 		var replies []*dns.Msg
 		if g != nil {
 			raw, err := q.Pack()
@@ -403,7 +418,30 @@ func c04Run(sc *C04Scenario, tr *kit.Trace, res *kit.Result) {
 		}
 		// composed answers: every record of the reply is bounded by the shortest piece
 		if len(m.Answer) > 1 && m.Rcode == dns.RcodeSuccess {
-			if _, isC := m.Answer[0].(*dns.CNAME); isC {
+			if c0, isC := m.Answer[0].(*dns.CNAME); isC {
+				// An alias fetched by this very query and completed with a target that was already
+				// in the cache: what is stored (and shown) for the alias inherits the target's
+				// remaining lifetime, the shortest piece - not the alias's own TTL, nor the lease
+				// of the delegation the target was learnt through.
+				fetched := map[string]bool{}
+				for _, sn := range r.Net.Canonical() {
+					// (a query that left at the very instant the reply was seen is a background
+					// refresh started by a cache hit, not what this reply was built from)
+					if sn.At >= netAskStart && sn.Qtype == qt && sn.At < r.Net.Now()-time.Millisecond {
+						fetched[strings.ToLower(sn.Name)] = true
+					}
+				}
+				if last, isA := m.Answer[len(m.Answer)-1].(*dns.A); isA && strings.EqualFold(c0.Hdr.Name, name) &&
+					fetched[strings.ToLower(c0.Hdr.Name)] && !fetched[strings.ToLower(last.Hdr.Name)] && strings.EqualFold(c0.Target, last.Hdr.Name) &&
+					len(last.A.To4()) == 4 && time.Duration(uint32(last.A.To4()[1])<<16|uint32(last.A.To4()[2])<<8|uint32(last.A.To4()[3]))*time.Second < askStart-time.Second {
+					// (the target's data carries the second it was made in: made before this query
+					// began, so it did not arrive inside the alias's own upstream answer)
+					res.Probes["fresh-alias-completed-from-cache"]++
+					if c0.Hdr.Ttl > last.Hdr.Ttl+1 {
+						res.Fail("C04/recached-alias-outlives-cached-piece", "op %d at %v: %s was fetched by this query and completed with %s from the cache, which has %d s left; the alias is shown (and kept) with TTL %d", i, now, c0.Hdr.Name, last.Hdr.Name, last.Hdr.Ttl, c0.Hdr.Ttl)
+						return
+					}
+				}
 				for _, rr := range m.Answer {
 					if rr.Header().Rrtype == dns.TypeCNAME && time.Duration(rr.Header().Ttl)*time.Second > c04Clamp(sc.AliasTTL) && upstream > 0 {
 						if deferred == nil {
